@@ -17,6 +17,51 @@ add("C02", W, "exploration", "deterministic simulation: HLL replicas as a state-
     "Replicas of one (p, seed) exchange snapshots through an adversarial network; after every event registers must equal the reference registers of the node's key set (independent pure-Python FastHash64 and rank), query() must equal a fresh sketch fed the distinct keys, and after heal two different anti-entropy trees must converge to the union byte-for-byte.",
     "Trusts the pure-Python FastHash64/rank reference written from the published algorithm.", "DESIGN.md §4 C02")
 
+P = "P (process simulator: real parallel_add under a seeded baton scheduler with fault plans)"
+D = "D (disk crash enumerator: all strict prefixes of save() output)"
+add("C03", W, "exploration", "deterministic simulation: heavy-hitter replicas with NUL/length-aliased key pools under merge-network and restart faults; count <= truth oracle after every event",
+    "Seeded histories on up to 4 heavy-hitter replicas (adversarial pools: empty, all-NUL, NUL-suffixed pairs, over-long keys; widths 1..16) with merges delivered in any order/duplication and save/crash-restart; after every event hh[key] and every (key, count) of sampled query(k, threshold) calls are checked against the truth multiset keyed by the length-sensitive identity key[:max_key_len].",
+    "Trusts the truth model; identity is taken from the statement (first max_key_len bytes, length-sensitive).", "DESIGN.md §4 C03/C04")
+add("C04", W, "exploration", "deterministic simulation: same replica histories as C03; lower-bound oracle hh[k] >= max_r(2f - W_r) with cell ownership learned from probe sketches",
+    "Same simulated histories as C03 (all orders, partitions over replicas, merge trees, duplicates, restarts). After every event, for every key with positive bound B = max_r(2f - W_r) (ownership from an empty probe sketch after one add), hh[key] >= B, query(inf, t) contains it for t <= B, and a majority key is first with count >= 2f - N. Only while total mass < 2^32-1 (statement: absent saturation).",
+    "Trusts truth model and probe ownership (falls back to 'shares with everything', which only weakens the bound).", "DESIGN.md §4 C03/C04")
+add("C05", W, "exploration", "deterministic simulation: pre/post-condition of every add event in simulated histories (merged/restarted states), log draws placed by the simulator",
+    "Every add(key, v) event inside simulated histories (states produced by merges, restarts, other entry points) is bracketed: whole-universe estimates, table copy and n_added before and after; all clauses of the statement are evaluated (linear exactness, log step bounds and reserved-range exactness, no other estimate decreases or overshoots, <= 1 changed counter per row, n_added accounting).",
+    "Trusts probe ownership for the log clauses; draws come from the simulator-owned batch.", "DESIGN.md §4 C05")
+add("C06", W, "exploration", "deterministic simulation with the randomness seam owned by the simulator: placed draws at the decision boundary, mirrored counter walk (full refinement), refill watch, lower bound on every history",
+    "(a) law probes: counter set to c, one draw placed just below/above/far from base^-(c-nr), unit add must advance iff u < p, no draw in the reserved range, none at the maximum; decode table steps equal 1/p. (b) lower bound min(truth, nr+1) after every event of merge/restart histories. (c) every workload event is mirrored by a reference walk consuming the same batch: resulting table, rand_ptr and refilled batch (== generator's next 2048 draws) must match exactly.",
+    "Trusts the reference walk written from the statement; draws within 1e-9 relative of the boundary are skipped (pow rounding).", "DESIGN.md §4 C06")
+add("C09", W, "exploration", "deterministic simulation: every merge delivery checked as a refinement of the per-cell spec, with injected pre-states; one disclosed enumeration sub-mode (log8 all 256x256 pairs)",
+    "Every deliver event (file or live snapshot, duplicates, any order) on linear/log16/log8 replicas is checked cell by cell against the statement (saturating sum; exact in reserved range; maximum once sum >= max_count; nearest counter otherwise; never below either input), plus operand unchanged, bookkeeping sums, commutativity and neutral element on clones. Seeded state injection reaches far counters; 2% of log8 runs enumerate all 256x256 pairs of the run's configuration, 2% of log16 runs all 65536 counters against the empty sketch.",
+    "Trusts the decode formula of the statement; nearest is judged with 1e-9 relative tolerance (ties and log rounding not prescribed).", "DESIGN.md §4 C09")
+add("C10", W, "exploration", "deterministic simulation: save and crash-restart events at arbitrary points of histories, restored replica vs never-restarted shadow under mirrored draws",
+    "All five classes; save events round-trip through every loader route (class/module, shared_memory False/True): class, parameters, bytes, queries, bookkeeping, merge with the original, foreign class loaders reject. crash_restart events restart a node from the latest or an older snapshot; afterwards the restored primary and a never-saved in-memory shadow must stay byte-equal after every later event under identical draws.",
+    "Trusts numpy byte comparison of public arrays as 'exactly equal'.", "DESIGN.md §4 C10")
+add("C12", W, "exploration", "deterministic simulation: scheduler-chosen entry point vs single-add shadow under identical draws, byte-equal state after every event",
+    "Each workload event enters through a PRNG-chosen entry point (add with multiplicity, update(list), update(dict), add_ngram, update_ngram) while a shadow sketch receives the canonical expansion as single add(key) calls; both consume the same placed draws; public state must be byte-equal after every event; sketch[key] == query(key).",
+    "Expansion semantics are taken from the statement (window rule, dict order).", "DESIGN.md §4 C12")
+add("C13", W, "exploration", "deterministic simulation: query events interleaved with adds/merges/restarts/views (cache hit and miss paths), oracle from tables and a freshly loaded copy",
+    "Histories interleave add/merge/save/restart with query(k, t) events incl. immediate repeats with same/changed threshold and queries through attached views; each answer is checked: <= k pairs, distinct, sorted, count == hh[key] >= threshold, equals the top-k derived from the public tables, every added key above max(threshold,1) present for k=inf, and equal to the answer of HeavyHitters.load(save()).",
+    "Total mass kept below 2^32 and thresholds <= 2^32-1 (the statement's space).", "DESIGN.md §4 C13")
+add("C15", W, "exploration", "deterministic simulation: fault kind 'config-skewed peer' injected into replica histories; TypeError and bit-identical operands",
+    "Inside ordinary histories a peer differing in exactly one parameter (width, depth, counter type incl. all ordered type pairs, max_count, num_reserved | p, seed | width, depth, max_key_len), both non-empty, is offered for merging in one or both directions: every attempt must raise TypeError and leave both operands byte-identical. Agreeing peers built differently (other phi, factory, loaded from file, shared) must merge.",
+    "-", "DESIGN.md §4 C15")
+add("C16", W, "exploration", "deterministic simulation: operations routed through owner/attached views vs in-memory shadow, view/owner deletion orders, /dev/shm listing",
+    "Primary owns a real POSIX segment, 0-2 views attach via attach_existing_shm or helpers.attach_shared_memory; every workload/merge event is routed through a PRNG-chosen party; after every event owner, every view and an in-memory shadow must expose byte-equal state and equal answers; drop_view leaves owner and segment intact; drop_owner (views first or owner first) removes the segment name. Odd byte sizes (unaligned bookkeeping) are reached and counted.",
+    "Linux shared-memory semantics (exact segment size).", "DESIGN.md §4 C16")
+add("C18", W, "exploration", "deterministic simulation: histories that reach and pass the ceilings (adds, merges, restarts), monotonicity/sticky-ceiling invariants; constructor clause probed per event",
+    "Multiplicities adjacent to 2^32-1 and small log max_count make ceilings reachable; around every add/merge no count-min estimate may decrease (so a ceiling value stays), a heavy-hitter key alone in its cells equals min(truth, 2^32-1); ctor events draw (max_count, num_reserved) over the whole range: the constructor must raise ValueError or decode its maximum counter to max_count within 1e-6 relative.",
+    "1e-6 relative tolerance for 'decodes to max_count'.", "DESIGN.md §4 C18")
+add("C08", P, "exploration", "deterministic simulation of the real parallel_add: would-be processes as baton-passing threads under a seeded scheduler (7 personalities), simulated queues/processes/clock; sequential-model oracle",
+    "The unmodified helpers.parallel_add (filler, logger, n workers, merge rounds, shared-memory attach, monitor loop, __del__ clean-up) runs in one interpreter; the scheduler decides who proceeds at every queue/process/sleep operation; worker counts 1..9, all sketch subsets, list and generator items, simulated processing delays. At return: result order/classes, HLL registers == sequential, n_added/n_records exact, C01/C03/C04 bounds w.r.t. the whole stream, every item exactly once, no task left, no segment leaked.",
+    "SimContext models spawn pickling, bounded FIFO queues, exit codes; feeder threads/pipes are not modelled.", "DESIGN.md §4 C08")
+add("C19", P, "exploration", "deterministic simulation of parallel_add with fault plans: callback raises before/mid/after, worker dies at item/take/pill, under seeded schedules; containment and termination oracles",
+    "Fault plans over the same simulated parallel_add: any subset of <= 5 items raises (before/mid/after its updates) -> must return, contain every other item's full contribution (lower bounds), n_records counts successful items only; one worker dies (inside callback, after taking its k-th item, at the poison pill) -> parallel_add must terminate with an exception; returning a result or hanging (deadlock/livelock detection with step and simulated-time caps) is the violation.",
+    "Worker death is modelled as a BaseException with non-zero exit code (stack unwinds, unlike os._exit).", "DESIGN.md §4 C19")
+add("C20", D, "fault_enumeration", "fault enumeration: every crash offset (strict prefix) of every saved file through every loader route",
+    "Exhaustive over the stated fault space: for each of the five classes x shapes x contents (incl. keys containing zip signatures) every strict prefix 0..len-1 of the bytes save() wrote is put on disk and offered to the class loader and (count-min) the module-level load, shared_memory False and sampled True: each must raise; the complete file must load to the saved sketch.",
+    "Fault model is the statement's (prefix truncation); intermediate write-log states are reported as NOTE only.", "DESIGN.md §4 C20")
+
 NA = {
     "C07": "pure statistical function of one key set and (p, seed): no schedule, clock, fault, history or shared party for a simulator to control (DESIGN.md §5)",
     "C11": "hash functions are pure functions of (bytes, seed): nothing to schedule or fault; FastHash64 deviations on inputs exercised by C02 are still caught there (DESIGN.md §5)",
